@@ -2,8 +2,11 @@
 
 Generated domain: decoder-accepted encodings: every (prefix|none, opcode) pair; the second byte enumerated over
 the decoder-legal mode bytes (mode-byte opcodes) or drawn from boundary values / named internal-register
-addresses / hash (data-byte opcodes); remaining operand bytes likewise.  The 16 prefix variants of one
-(opcode, operand bytes) group share their operand bytes.  Unfused PRE and '???' are excluded.
+addresses / hash (data-byte opcodes); remaining operand bytes likewise; plus, for every opcode with >= 2 operand
+bytes, whole-operand boundary patterns (all operand bytes from one 24-bit word: FFFF.., 0000.., 8000, 10000 ...).
+The 16 prefix variants of one (opcode, operand bytes) group share their operand bytes.  Unfused PRE and '???' are
+excluded.  The .ORG address of the assembled line is generated too: page 0..15 x in-page offset (boundaries, hash,
+'instruction ends on the last byte of the page').
 
 Oracle (property statement, clause by clause):
   text      := rendered token stream, integer/address tokens as 0x.. literals (sign kept outside), everything
@@ -15,6 +18,8 @@ Oracle (property statement, clause by clause):
   behaviour : original and emitted bytes executed (Python emulator) from one generated state, placed so that
               both END at the same address, give equal registers, flags, PC, power state and memory effects
   idempotence : assemble(text(emitted)) == emitted
+  listing   : (phase 2) texts that round-tripped alone, composed into listings of distinct lines sharing an operand
+              text / a mnemonic, several listings per Assembler object: bytes == concatenation of the stand-alone bytes
 Byte equality with the original is NOT required (redundant prefixes, don't-care bits).
 """
 
@@ -34,10 +39,14 @@ from .. import textparse as TP
 PROPERTY = "C09"
 RULE = ("decoder-accepted encodings: every (prefix|none, opcode) pair x second byte (all decoder-legal mode bytes "
         "in thorough / a seeded subset in quick for mode-byte opcodes; boundary values, named internal-register "
-        "addresses and hash values for data-byte opcodes) x hash/boundary operand bytes; each rendered to text "
+        "addresses and hash values for data-byte opcodes) x hash/boundary operand bytes, plus whole-operand boundary "
+        "patterns (all operand bytes FF / 00 / 16-, 20-, 24-bit edge words) for every opcode with >= 2 operand bytes; "
+        "x a generated .ORG address (page 0..15, in-page offset boundary/hash/ending on the page's last byte); each "
+        "rendered to text "
         "(hex literals, names), assembled, re-decoded, executed against the original from one generated state, "
         "re-assembled. Non-trivial = the instruction has >= 1 operand; distinct = (prefix, mnemonic, operand-mode "
-        "signature) i.e. distinct text shapes x prefix.")
+        "signature) i.e. distinct text shapes x prefix. Phase 2: listings of 6 distinct stand-alone-good texts related "
+        "by operand text / mnemonic, 8 listings per Assembler object; distinct = listing content.")
 
 REG_FIELDS = ("BA", "I", "X", "Y", "U", "S", "PC")
 POINTER_NAMES = ("BP", "PX", "PY")
@@ -169,13 +178,39 @@ def page_of(text: str) -> int:
     return 1 + zlib.crc32(text.encode()) % 14
 
 
+# in-page offsets of the .ORG line (the page and the offset are generated dimensions, see org_of)
+ORG_OFFSETS = (0x0000, 0x0001, 0x00FF, 0x0100, 0x7FFF, 0x8000, 0xFF00, 0xFFF0)
+
+
+def org_of(text: str, seed: int, fit_len: int) -> Tuple[int, str]:
+    """The .ORG address a text is assembled at during exploration, and its class label.  A function of (seed, text,
+    fit_len) only, so results stay cacheable per text.  Page 0..15; in-page offset from ORG_OFFSETS, a hash value,
+    or 'exact fit': the instruction (fit_len = its decoded length without a redundant prefix) ends on the last
+    byte of the page."""
+    h = mix32(seed, zlib.crc32(text.encode()), 41)
+    page = h & 0xF
+    sel = (h >> 4) % (len(ORG_OFFSETS) + 4)
+    if sel < len(ORG_OFFSETS):
+        off, lab = ORG_OFFSETS[sel], "boundary-offset"
+    elif sel < len(ORG_OFFSETS) + 2:
+        off, lab = 0x10000 - fit_len, "exact-fit-at-page-end"
+    else:
+        off, lab = min((h >> 12) & 0xFFFF, 0xFFF0), "hash-offset"
+    return (page << 16) | off, lab
+
+
+def default_org(state: Optional[Dict[str, Any]]) -> int:
+    """Origin used when a saved case carries none (cases saved before the origin became a generated dimension)."""
+    return (state or {}).get("end", 0x1000) & 0xF0000
+
+
 def assemble(text: str, addr: int) -> Tuple[Optional[bytes], Optional[str], bool]:
-    """Cached on (text, page of the .ORG address)."""
-    key = (text, addr & 0xF0000)
+    """Cached on (text, .ORG address)."""
+    key = (text, addr)
     hit = _ASM_CACHE.get(key)
     if hit is not None:
         return hit[0], hit[1], True
-    res = assemble_raw(text, addr & 0xF0000)
+    res = assemble_raw(text, addr)
     if len(_ASM_CACHE) > 200000:
         _ASM_CACHE.clear()
     _ASM_CACHE[key] = res
@@ -344,8 +379,10 @@ def byte_delta(b1: bytes, b2: bytes) -> str:
 
 
 def verdict(code: bytes, state: Optional[Dict[str, Any]], recheck: bool = False,
-            st: Optional[S.Stream] = None) -> Tuple[List[Violation], List[str], Dict[str, Any]]:
-    """Returns (violations, labels, info). `code` must be one decoder-accepted instruction (exact length)."""
+            st: Optional[S.Stream] = None, org: Optional[int] = None,
+            seed: Optional[int] = None) -> Tuple[List[Violation], List[str], Dict[str, Any]]:
+    """Returns (violations, labels, info). `code` must be one decoder-accepted instruction (exact length).
+    org = address of the .ORG line; exploration passes `seed` instead and the origin is generated (org_of)."""
     labels: List[str] = []
     info: Dict[str, Any] = {"code": code.hex()}
     r = TP.tokens(code + G.NOP_PAD)
@@ -359,13 +396,19 @@ def verdict(code: bytes, state: Optional[Dict[str, Any]], recheck: bool = False,
         # exploration: the instruction lives in the page derived from its text (replay keeps the saved address)
         state = dict(state)
         state["end"] = (page_of(text) << 16) | (state["end"] & 0xFFFF)
-    saved = {"code": code.hex(), "state": state}
+    if org is None and seed is not None:
+        org, olab = org_of(text, seed, len(code) - (1 if code[0] in G.PRE_OPCODES else 0))
+        labels += [f"org:{olab}", "org:page-0" if org < 0x10000 else ("org:page-15" if org >= 0xF0000 else "org:page-1..14")]
+    if org is None:
+        org = default_org(state)
+    info["org"] = org
+    saved = {"code": code.hex(), "state": state, "org": org}
     out: List[Violation] = []
 
-    b1, err, hit = assemble(text, (state or {}).get("end", 0x1000))
+    b1, err, hit = assemble(text, org)
     labels.append("asm-cache-hit" if hit else "asm-call")
     if err is not None or b1 is None:
-        out.append(Violation("assemble", where, err or "no output", saved, f"{code.hex()} '{text}' -> {err}"))
+        out.append(Violation("assemble", where, err or "no output", saved, f"{code.hex()} '{text}' at .ORG {org:#07x} -> {err}"))
         return out, labels + ["result:assemble-fails"], info
     info["reassembled"] = b1.hex()
     labels.append("bytes:same" if b1 == code else "bytes:differ")
@@ -398,7 +441,7 @@ def verdict(code: bytes, state: Optional[Dict[str, Any]], recheck: bool = False,
 
     # idempotence: a second disassemble/assemble round leaves the bytes unchanged
     if not text_ok:
-        b2, err2, _ = assemble(text1, (state or {}).get("end", 0x1000))
+        b2, err2, _ = assemble(text1, org)
         if err2 is not None:
             out.append(Violation("idempotence", where, "second round: " + err2, saved,
                                  f"{b1.hex()} '{text1}' -> {err2}"))
@@ -406,7 +449,7 @@ def verdict(code: bytes, state: Optional[Dict[str, Any]], recheck: bool = False,
             out.append(Violation("idempotence", where, "second round changes the bytes: " + byte_delta(b1, b2 or b""), saved,
                                  f"{b1.hex()} '{text1}' -> {b2.hex() if b2 else None}"))
     elif recheck:
-        b2, err2 = assemble_raw(text, (state or {}).get("end", 0x1000))
+        b2, err2 = assemble_raw(text, org)
         labels.append("idempotence-recheck")
         if err2 is not None or b2 != b1:
             out.append(Violation("idempotence", where, "same text assembles differently the second time", saved,
@@ -452,6 +495,7 @@ def verdict(code: bytes, state: Optional[Dict[str, Any]], recheck: bool = False,
 # ----------------------------------------------------------------------------------------------------------
 
 _B2_TABLE: Optional[Dict[int, List[int]]] = None
+_B2_LEN: Dict[Tuple[int, int], int] = {}      # (opcode, b2) -> decoded length of the unprefixed form
 
 
 def b2_table() -> Dict[int, List[int]]:
@@ -462,8 +506,12 @@ def b2_table() -> Dict[int, List[int]]:
         for op in range(256):
             if G.is_pre(op):
                 continue
-            tab[op] = [b2 for b2 in range(256)
-                       if TP.tokens(bytes([op, b2, 0x11, 0x22, 0x33, 0x44, 0x55]) + G.NOP_PAD) is not None]
+            tab[op] = []
+            for b2 in range(256):
+                r = TP.tokens(bytes([op, b2, 0x11, 0x22, 0x33, 0x44, 0x55]) + G.NOP_PAD)
+                if r is not None:
+                    tab[op].append(b2)
+                    _B2_LEN[(op, b2)] = r[1]
         _B2_TABLE = tab
     return _B2_TABLE
 
@@ -494,6 +542,48 @@ def groups(seed: int, tier: str) -> List[Tuple[int, int, bytes]]:
         for k, b2 in enumerate(b2s):
             tail = bytes(pick_byte(mix32(seed, op, b2, k, j, 3)) for j in range(5))
             out.append((op, b2, tail))
+    # appended after the per-byte groups so that those keep their indices (and thereby their generated states)
+    out.extend(boundary_groups(seed, tier))
+    return out
+
+
+# Whole-operand boundary values: 24-bit little-endian words laid over ALL operand bytes at once (twice in a row), so
+# that 16-bit / 20-bit / 24-bit operands take their extreme values as a whole (0xFFFF, 0x0000, 0x8000, 0x10000,
+# 0xFFFFF ...), which independent per-byte draws reach with probability ~2e-4 per pair of bytes.
+BOUNDARY_WORDS = (0xFFFFFF, 0x000000,                                   # always (also in quick)
+                  0x00FFFF, 0xFF0000, 0x010000, 0xFFFFFE, 0x000001, 0x008000, 0x007FFF, 0x000100, 0x0000FF,
+                  0x0FFFFF, 0x0F0000, 0x080000, 0x07FFFF)
+N_BOUNDARY_ALWAYS = 2
+N_BOUNDARY_QUICK_EXTRA = 2
+
+
+def boundary_groups(seed: int, tier: str) -> List[Tuple[int, int, bytes]]:
+    """[(opcode, b2, tail)] for every opcode that has a form with >= 2 operand bytes (asked of the decoder): the
+    operand bytes are a BOUNDARY_WORDS pattern.  For mode-byte opcodes the second byte stays a decoder-legal mode
+    byte (seeded pick among those giving >= 2 operand bytes) and the pattern covers the bytes after it."""
+    tab = b2_table()
+    out: List[Tuple[int, int, bytes]] = []
+    for op in sorted(tab):
+        valid = tab[op]
+        if not valid:
+            continue
+        mode_byte = len(valid) < 256
+        long_b2 = [b2 for b2 in valid if _B2_LEN[(op, b2)] >= 3]
+        if not long_b2:
+            continue
+        words = list(BOUNDARY_WORDS[:N_BOUNDARY_ALWAYS])
+        rest = list(BOUNDARY_WORDS[N_BOUNDARY_ALWAYS:])
+        if tier == "quick":
+            for k in range(N_BOUNDARY_QUICK_EXTRA):
+                words.append(rest.pop(mix32(seed, op, k, 4) % len(rest)))
+        else:
+            words += rest
+        for k, w in enumerate(words):
+            pat = bytes([w & 0xFF, (w >> 8) & 0xFF, (w >> 16) & 0xFF]) * 2
+            if mode_byte:
+                out.append((op, long_b2[mix32(seed, op, k, 5) % len(long_b2)], pat[:5]))
+            else:
+                out.append((op, pat[0], pat[1:6]))
     return out
 
 
@@ -502,54 +592,139 @@ LISTING_LEN = 6
 LISTINGS_PER_ASSEMBLER = 8
 
 
+def listing_step(asm: Any, history: List[List[Tuple[str, str]]]) -> List[Violation]:
+    """Assemble the LAST listing of `history` on `asm`, an Assembler object that has already assembled the earlier
+    ones (in order), and compare with the concatenation of its lines' stand-alone bytes."""
+    from sc62015.pysc62015.sc_asm import AssemblerError
+
+    out: List[Violation] = []
+    li = len(history) - 1
+    listing = history[li]
+    src = ".ORG 0x01000\n" + "\n".join(t for t, _ in listing) + "\n"
+    expected = b"".join(bytes.fromhex(h) for _, h in listing)
+    case = {"kind": "listing", "history": [[list(x) for x in l] for l in history]}
+    try:
+        got = bytes(asm.assemble(src).as_binary())
+    except AssemblerError as exc:
+        out.append(Violation("listing", "listing of texts that each assemble alone", "listing rejected: " + norm_error(str(exc))[:80],
+                             case, f"listing #{li} {[t for t, _ in listing]}: {str(exc)[:160]}"))
+        return out
+    except Exception as exc:  # noqa: BLE001
+        out.append(Violation("listing", "listing of texts that each assemble alone", f"listing raises {type(exc).__name__}",
+                             case, f"listing #{li}: {type(exc).__name__}: {str(exc)[:160]}"))
+        return out
+    if got != expected:
+        # first differing line
+        off = 0
+        bad = "?"
+        for t, h in listing:
+            n = len(h) // 2
+            if got[off:off + n] != bytes.fromhex(h):
+                r = TP.tokens(bytes.fromhex(h) + G.NOP_PAD)
+                bad = where_of(r[0]) if r else t
+                break
+            off += n
+        out.append(Violation("listing", f"line {bad}", "bytes in a listing differ from the same line assembled alone"
+                             + (" (first listing on a fresh Assembler)" if li == 0 else " (Assembler object reused)"),
+                             case, f"listing #{li} {[t for t, _ in listing]}: got {got.hex()} expected {expected.hex()}"))
+    return out
+
+
 def listing_violations(history: List[List[Tuple[str, str]]]) -> List[Violation]:
     """history = listings assembled one after the other on ONE Assembler object; each listing is a list of
     (text, hex of the bytes that text assembles to alone).  Every listing must assemble to the concatenation of its
     lines' stand-alone bytes: a disassembled listing is accepted text, and assembling it must not depend on the other
-    lines of the listing or on what the Assembler object assembled before."""
-    from sc62015.pysc62015.sc_asm import Assembler, AssemblerError
+    lines of the listing or on what the Assembler object assembled before.  (Replay form: a fresh Assembler, the whole
+    history; exploration keeps the object alive and calls listing_step once per new listing -- same sequence.)"""
+    from sc62015.pysc62015.sc_asm import Assembler
 
-    out: List[Violation] = []
     asm = Assembler()
-    for li, listing in enumerate(history):
-        src = ".ORG 0x01000\n" + "\n".join(t for t, _ in listing) + "\n"
-        expected = b"".join(bytes.fromhex(h) for _, h in listing)
-        case = {"kind": "listing", "history": [[list(x) for x in l] for l in history[: li + 1]]}
-        try:
-            got = bytes(asm.assemble(src).as_binary())
-        except AssemblerError as exc:
-            out.append(Violation("listing", "listing of texts that each assemble alone", "listing rejected: " + norm_error(str(exc))[:80],
-                                 case, f"listing #{li} {[t for t, _ in listing]}: {str(exc)[:160]}"))
-            break
-        except Exception as exc:  # noqa: BLE001
-            out.append(Violation("listing", "listing of texts that each assemble alone", f"listing raises {type(exc).__name__}",
-                                 case, f"listing #{li}: {type(exc).__name__}: {str(exc)[:160]}"))
-            break
-        if got != expected:
-            # first differing line
-            off = 0
-            bad = "?"
-            for t, h in listing:
-                n = len(h) // 2
-                if got[off:off + n] != bytes.fromhex(h):
-                    r = TP.tokens(bytes.fromhex(h) + G.NOP_PAD)
-                    bad = where_of(r[0]) if r else t
-                    break
-                off += n
-            out.append(Violation("listing", f"line {bad}", "bytes in a listing differ from the same line assembled alone"
-                                 + (" (first listing on a fresh Assembler)" if li == 0 else " (Assembler object reused)"),
-                                 case, f"listing #{li} {[t for t, _ in listing]}: got {got.hex()} expected {expected.hex()}"))
-            break
+    for li in range(len(history)):
+        out = listing_step(asm, history[: li + 1])
+        if out:
+            return out
+    return []
+
+
+N_LISTING_SEEDS = {"quick": 768, "thorough": 6144}
+
+
+def compose_listings(pool: List[List[Any]], seed: int, tier: str) -> List[List[Tuple[str, str]]]:
+    """Listings of LISTING_LEN DISTINCT lines that have something in common, because whatever one line of a listing
+    (or one use of an Assembler object) can leak into another travels through something they share: a seed line plus
+    lines with the same operand text but another instruction form (e.g. '[X++]' under another data width), lines
+    with the same mnemonic but other operand forms (e.g. 'ADD A, IL' / 'ADD X, Y'), and hash-picked lines of the
+    pool.  pool = the distinct texts that round-tripped alone in phase 1, in a deterministic order."""
+    by_mn: Dict[str, List[int]] = {}
+    by_op: Dict[str, List[int]] = {}
+    for i, (_t, _h, mn, _w, optexts) in enumerate(pool):
+        by_mn.setdefault(mn, []).append(i)
+        for o in sorted(set(optexts)):
+            by_op.setdefault(o, []).append(i)
+    n = min(len(pool), N_LISTING_SEEDS[tier])
+    out: List[List[Tuple[str, str]]] = []
+    for k in range(n):
+        si = (k * len(pool)) // n                       # seeds spread evenly over the pool
+        text, _h, mn, where, optexts = pool[si]
+        chosen = [si]
+
+        def take(cands: List[int], salt: int, want: int) -> None:
+            cands = [c for c in cands if c not in chosen]
+            other_form = [c for c in cands if pool[c][3] != where]
+            for src in (other_form, cands):
+                j = 0
+                while want > 0 and src and j < 8:
+                    c = src[mix32(seed, si, salt, j) % len(src)]
+                    j += 1
+                    if c not in chosen:
+                        chosen.append(c)
+                        want -= 1
+
+        for oi, o in enumerate(optexts):
+            take(by_op.get(o, []), 10 + oi, 2 if len(optexts) == 1 else 1)
+        take(by_mn.get(mn, []), 20, 2)
+        take(list(range(len(pool))), 30, LISTING_LEN - len(chosen))
+        chosen = chosen[:LISTING_LEN]
+        order = sorted(range(len(chosen)), key=lambda q: mix32(seed, si, 40, q))
+        out.append([(pool[chosen[q]][0], pool[chosen[q]][1]) for q in order])
     return out
+
+
+def _listing_shard(task: Tuple[List[List[List[Tuple[str, str]]]], float]) -> Report:
+    """task = (histories, deadline); each history (<= LISTINGS_PER_ASSEMBLER listings) runs on one Assembler."""
+    from sc62015.pysc62015.sc_asm import Assembler
+
+    histories, deadline = task
+    rep = Report()
+    for history in histories:
+        if time.time() > deadline:
+            rep.inconclusive.append("time budget reached; some listings not assembled (not a violation)")
+            break
+        asm = Assembler()
+        for li in range(len(history)):
+            lv = listing_step(asm, history[: li + 1])
+            for v in lv:
+                rep.violate(v)
+            distinct = len({t for t, _ in history[li]})
+            rep.case("listing:" + jhash(history[li]),
+                     ["kind:listing", f"listing-on-assembler-use:{li + 1}", f"listing-distinct-lines:{distinct}"]
+                     + (["result:listing"] if lv else []),
+                     {"listing": [t for t, _ in history[li]]} if rep.labels.get("kind:listing", 0) % 50 == 1 else None)
+            if lv:
+                break       # the object's state after a failure says nothing more
+    return rep
 
 
 def _shard(task: Tuple[int, int, int, str, float]) -> Report:
     shard, nshards, seed, tier, deadline = task
     rep = Report()
     gs = groups(seed, tier)
-    good: List[Tuple[str, str]] = []
-    history: List[List[Tuple[str, str]]] = []
-    for gi, (op, b2, tail) in enumerate(gs):
+    n_bytewise = len(gs) - len(boundary_groups(seed, tier))
+    good: List[List[Any]] = []       # [text, hex of its stand-alone bytes, mnemonic, where, operand texts]
+    seen_good: set = set()
+    # the whole-operand boundary groups (indices >= n_bytewise) go first: a time budget hit must not drop a class
+    for gi in list(range(n_bytewise, len(gs))) + list(range(n_bytewise)):
+        op, b2, tail = gs[gi]
         if gi % nshards != shard:
             continue
         if time.time() > deadline:
@@ -570,7 +745,9 @@ def _shard(task: Tuple[int, int, int, str, float]) -> Report:
             st = S.Stream(seed, gi, pi)
             state, slabels = make_state(st, code, mn)
             recheck = mix32(seed, gi, pi, 9) % 16 == 0
-            vs, labels, info = verdict(code, state, recheck=recheck, st=st)
+            vs, labels, info = verdict(code, state, recheck=recheck, st=st, seed=seed)
+            if gi >= n_bytewise:
+                labels.append("gen:whole-operand-boundary")
             for v in vs:
                 rep.violate(v)
             where = info.get("where", "?")
@@ -588,18 +765,12 @@ def _shard(task: Tuple[int, int, int, str, float]) -> Report:
                 sample = {"code": code.hex(), "text": info.get("text"), "reassembled": info.get("reassembled"),
                           "where": where, "violations": [v.fingerprint for v in vs]}
             rep.case(ntkey, lab, sample)
-            # listings: texts that round-trip alone, assembled together on a reused Assembler object
-            if not vs and info.get("reassembled") and mn not in NEAR_FLOW and info.get("text"):
-                good.append((info["text"], info["reassembled"]))
-                if len(good) >= LISTING_LEN:
-                    history.append(good)
-                    good = []
-                    for v in listing_violations(history):
-                        rep.violate(v)
-                    rep.case("listing:" + jhash(history[-1]), ["kind:listing", f"listing-on-assembler-use:{len(history)}"],
-                             {"listing": [t for t, _ in history[-1]]} if rep.labels.get("kind:listing", 0) % 50 == 1 else None)
-                    if len(history) >= LISTINGS_PER_ASSEMBLER:
-                        history = []
+            # phase 2 material: texts that round-trip alone (first occurrence per shard)
+            if not vs and info.get("reassembled") and mn not in NEAR_FLOW and info.get("text") \
+                    and info["text"] not in seen_good:
+                seen_good.add(info["text"])
+                good.append([info["text"], info["reassembled"], mn, where, signature(toks)[2]])
+    rep.extra["_good"] = good
     return rep
 
 
@@ -607,7 +778,11 @@ ASSUMPTIONS = [
     "accepted = the Python decoder accepts the bytes, decodes them as one instruction and it is not an unfused "
     "PRE / '???' rendering; the instruction under test is followed by NOP bytes (look-ahead is C01's subject)",
     "text = token stream with Int/Addr tokens as 0x.. literals (sign outside), all other tokens verbatim; the line "
-    "is assembled after a '.ORG <page base>' line with a fresh Assembler per text",
+    "is assembled after a '.ORG <address>' line with a fresh Assembler per text; the address is generated (any page "
+    "0..15, any in-page offset up to 'the instruction without redundant prefix ends on the page's last byte'): the "
+    "decoder's text does not depend on the address, so neither may the assembler's acceptance of it",
+    "listing: a line's bytes inside a listing (at .ORG 0x1000, near JP/CALL lines left out) must equal its stand-alone "
+    "bytes whatever the other lines are and whatever the Assembler object assembled before",
     "byte equality with the original encoding is not required (redundant prefix, don't-care bits)",
     "behaviour is compared on the Python emulator only, one step, with both encodings placed so that they END at "
     "the same address (fall-through PC, relative targets and pushed return addresses are then comparable); it is "
@@ -620,12 +795,44 @@ ASSUMPTIONS = [
 ]
 
 
+def merge_reports(reports: List[Report]) -> Report:
+    """Report.merge for every report, with the per-fingerprint cap on kept witnesses applied through a counter: the
+    stock merge re-serialises every kept violation for every incoming one (quadratic; 70 s of a quick run with the
+    ~10 000 known-finding witnesses of this property).  Same result: the first MAX_PER_FP witnesses per fingerprint
+    in report order."""
+    out = Report()
+    kept: Dict[str, int] = {}
+    for r in reports:
+        vs, r.violations = r.violations, []
+        out.merge(r)
+        for v in vs:
+            k = v.key()
+            if kept.get(k, 0) < Report.MAX_PER_FP:
+                kept[k] = kept.get(k, 0) + 1
+                out.violations.append(v)
+    return out
+
+
 def run(ctx: Ctx) -> Report:
     b2_table()  # computed once before forking
     nshards = 16 if ctx.quick else 64
     deadline = ctx.t0 + TIME_BUDGET[ctx.tier]
     reports = ctx.pmap(_shard, [(i, nshards, ctx.seed, ctx.tier, deadline) for i in range(nshards)])
-    rep = ctx.merge_reports(reports)
+    # phase 2: listings composed from ALL texts that round-tripped alone (shard order, then generation order)
+    pool: List[List[Any]] = []
+    seen: set = set()
+    for r in reports:
+        for e in r.extra.pop("_good", []):
+            if e[0] not in seen:
+                seen.add(e[0])
+                pool.append(e)
+    listings = compose_listings(pool, ctx.seed, ctx.tier)
+    histories = [listings[i:i + LISTINGS_PER_ASSEMBLER] for i in range(0, len(listings), LISTINGS_PER_ASSEMBLER)]
+    nproc = 16
+    tasks = [([h for j, h in enumerate(histories) if j % nproc == w], deadline) for w in range(nproc)]
+    reports += ctx.pmap(_listing_shard, [t for t in tasks if t[0]])
+    rep = merge_reports(reports)
+    rep.extra["listing_pool_distinct_texts"] = len(pool)
     for k in [k for k in rep.extra if k.startswith("_")]:
         del rep.extra[k]
     rep.rule = RULE
@@ -641,7 +848,7 @@ def replay(ctx: Ctx, case: Dict[str, Any]) -> List[Violation]:
     if case.get("kind") == "listing":
         return listing_violations([[tuple(x) for x in l] for l in case["history"]])
     code = bytes.fromhex(case["code"])
-    vs, _, _ = verdict(code, case.get("state"), recheck=True)
+    vs, _, _ = verdict(code, case.get("state"), recheck=True, org=case.get("org"))
     return vs
 
 
@@ -652,6 +859,39 @@ def _same(vs: List[Violation], key: str) -> Optional[Violation]:
     return None
 
 
+def shrink_listing(v: Violation) -> Violation:
+    """Drop earlier listings, then lines of the last listing, as long as the fingerprint stays (bounded: 60 s)."""
+    key = v.key()
+    t0 = time.time()
+    best = v
+    history = [[tuple(x) for x in l] for l in v.case["history"]]
+
+    def attempt(h: List[List[Tuple[str, str]]]) -> Optional[Violation]:
+        if time.time() - t0 > 60 or not h or not h[-1]:
+            return None
+        return _same(listing_violations(h), key)
+
+    i = 0
+    while i < len(history) - 1:
+        trial = history[:i] + history[i + 1:]
+        got = attempt(trial)
+        if got is not None:
+            best, history = got, trial
+        else:
+            i += 1
+    for which in range(len(history) - 1, -1, -1):
+        j = 0
+        while j < len(history[which]) and len(history[which]) > 1:
+            trial = [list(l) for l in history]
+            del trial[which][j]
+            got = attempt(trial)
+            if got is not None:
+                best, history = got, trial
+            else:
+                j += 1
+    return best
+
+
 def shrink(ctx: Ctx, v: Violation) -> Violation:
     """Field-wise simplification keeping the fingerprint: drop the state when it is irrelevant, zero operand
     bytes, zero registers.  Bounded (a few hundred verdict evaluations at most, <= 60 s)."""
@@ -659,6 +899,8 @@ def shrink(ctx: Ctx, v: Violation) -> Violation:
     t0 = time.time()
     best = v
     case = dict(v.case)
+    if case.get("kind") == "listing":
+        return shrink_listing(v)
 
     def attempt(code: bytes, state: Optional[Dict[str, Any]]) -> Optional[Violation]:
         if time.time() - t0 > 60:
@@ -666,7 +908,7 @@ def shrink(ctx: Ctx, v: Violation) -> Violation:
         r = TP.tokens(code + G.NOP_PAD)
         if r is None or r[1] != len(code):
             return None
-        vs, _, _ = verdict(code, state, recheck=True)
+        vs, _, _ = verdict(code, state, recheck=True, org=case.get("org"))
         return _same(vs, key)
 
     code = bytes.fromhex(case["code"])
